@@ -83,6 +83,10 @@ def classify(events, v):
         sig["class"] = "replay-drops-wal-entries"
         return sig, ("node %s restarted with raft last index %s although its WAL returned entries up to %s: entries above "
                      "the persisted commit index were dropped at replay" % (e.get("n"), e.get("raft_last"), e.get("wal_last")))
+    if e.get("ev") == "appended":
+        sig["class"] = "ready-entries-not-in-raft-log"
+        return sig, ("node %s: after the append of a Ready (snapshot %s) raft's log ends at %s although the Ready's last entry is %s"
+                     % (e.get("n"), e.get("snap"), e.get("raft_last"), e.get("ents_last")))
     if e.get("ev") == "published":
         sig["class"] = "publish-before-save"
         return sig, ("node %s handed entry %s to the apply loop while the largest index saved to its WAL was %s"
@@ -110,7 +114,7 @@ def classify(events, v):
 def run(ctx):
     rnd = random.Random(ctx.seed)
     stats = dict(rounds=0, epochs=0, accepted=0, rejected=0, events=0, acked=0, unanswered=0, nemesis={},
-                 spec_mutants_refuted=[], selftest=[], process_starts=0, tlc_states=0)
+                 spec_mutants_refuted=[], selftest=[], process_starts=0, tlc_states=0, whitebox={})
     samples = []
     vnode, zr = N.build(ctx)
 
@@ -150,6 +154,11 @@ def run(ctx):
     rounds.append(dict(name="stage-batch", engine="mem", ckpt=True,
                        args=["-vnode", vnode, "-engine", "mem", "-kind", "batch", "-n", "1", "-seed", str(ctx.seed)]))
 
+    # strict stage: an entry acknowledged with the ack of ONE follower only (the other is cut off), that follower
+    # killed before it learns the commit index, then the leader; the two remaining replicas must keep the entry
+    rounds.append(dict(name="stage-lostack", engine="mem", ckpt=True,
+                       args=["-vnode", vnode, "-engine", "mem", "-kind", "lostack", "-seed", str(ctx.seed)]))
+
     def do(s):
         summ, tr, d = N.run_scenario(ctx, zr, "clustersim", s["name"], s["args"], timeout=600)
         if summ is None:
@@ -167,6 +176,9 @@ def run(ctx):
         stats["rounds"] += 1
         stats["epochs"] += summ["epochs"]
         stats["events"] += len(events)
+        for e in events:
+            if e.get("ev") in ("sent", "replayed", "published", "appended"):
+                stats["whitebox"][e["ev"]] = stats["whitebox"].get(e["ev"], 0) + 1
         stats["acked"] += summ["ok"]
         stats["unanswered"] += summ["fail"]
         stats["process_starts"] += summ["process_starts"]
@@ -287,6 +299,8 @@ def run(ctx):
         rejected_rounds=stats["rejected"], events_validated=stats["events"], acked_ops=stats["acked"],
         unanswered_ops=stats["unanswered"], nemesis_actions=stats["nemesis"], process_starts=stats["process_starts"],
         tlc_states_explored_for_histories=stats["tlc_states"],
+        whitebox_events=dict(stats["whitebox"], note="hook reports that reached a trace: sent / replayed / published / "
+                             "appended (= Readys carrying a snapshot AND entries, rule TAppended)"),
         rule="one validated trace = one epoch (<= 200 operations between two settle barriers) of a round on three real "
              "data-node processes under the nemesis; TLC (ZLinTrace) searches for a linearization and compares the reads "
              "of all three replicas",
